@@ -19,6 +19,7 @@ import Wharf.Model.Archive
 import Wharf.Model.Heal
 import Wharf.Model.Commit
 import Wharf.Model.PatchResume
+import Wharf.Model.FreshBowl
 
 open Wharf Wharf.Util
 
@@ -532,6 +533,24 @@ def doAggregate (args : List String) : IO String := do
       s!"{k}:{w.start}:{w.stop}")
   | _ => return "bad-op"
 
+/-- `freshtree <new listing> [<transposed> | all | -]`: the tree the fresh bowl (`NewFreshBowl` … `Commit`) makes
+    of the listed build from the EMPTY output tree: `Prepare`, then every file written once, in container
+    order, with the listing's own content.  The optional second argument lists (comma separated) the file
+    indices written through `Transpose` (`fspool.GetWriter`); the others, by default all, go through
+    `GetWriter` (the `freshEntryWriter`).  Answer: `ok <tree>` as for `commit`, or `err <e>`. -/
+def doFreshTree (args : List String) : IO String := do
+  let run (lf : String) (tr : String) : IO String := do
+    let new := buildOfListing (← readListing lf)
+    let outs := (List.range new.files.length).zip (new.files.map (·.2))
+    let transposed : List Nat := if tr == "all" then List.range new.files.length else csvNats tr
+    match FreshBowl.freshApply new outs {} (fun i => if transposed.contains i then .transpose else .writer) with
+    | .error e => return s!"err {repr e}"
+    | .ok t => return "ok " ++ ";".intercalate (showTree t)
+  match args with
+  | [lf] => run lf "-"
+  | [lf, tr] => run lf tr
+  | _ => return "bad-op"
+
 def dispatch (line : String) : IO String := do
   match line.trimAscii.toString.splitOn " " with
   | "c11" :: args => doC11 args
@@ -553,6 +572,7 @@ def dispatch (line : String) : IO String := do
   | "analyze" :: args => doAnalyze args
   | "optimize" :: args => doOptimize args
   | "lru" :: args => doLru args
+  | "freshtree" :: args => doFreshTree args
   | ["ping"] => return "pong"
   | _ => return "bad-op"
 
